@@ -389,4 +389,23 @@ func (dht *FullRT) Provide(ctx context.Context, key cid.Cid, brdcst bool) (err e
 funclit 1 in (dht *FullRT) Provide(ctx context.Context, key cid.Cid, brdcst bool) (err error)
   props C06
   ghost at before call(PutProviderAddrs): assert($arg0 == ctx && $arg1 == p && $arg2 == keyMH && $arg3.ID == dht.self)
+
+# ---- construction options (C16: "missing or odd options give an error, not a hang")
+# An option either rejects its argument or stores exactly it; the bulk send
+# parallelism is at least 1 (with 0 workers the bulk operations would block on
+# their work channel for ever).
+funclit 0 in WithBulkSendParallelism(b int) Option
+  props C16
+  requires opt != nil
+  ensures [at-least-one-worker] (result == nil) == (b >= 1) && imp(result == nil, opt.bulkSendParallelism == b)
+
+funclit 0 in WithSuccessWaitFraction(f float64) Option
+  props C16
+  requires opt != nil
+  ensures [stored-when-accepted] imp(result == nil, opt.waitFrac == f)
+
+funclit 0 in WithIPDiversityFilterLimit(ipDiversityFilterLimit int) Option
+  props C16
+  requires opt != nil
+  ensures [stored-unchanged] result == nil && opt.ipDiversityFilterLimit == ipDiversityFilterLimit
 @*/
